@@ -1,14 +1,19 @@
 #!/bin/sh
-# usage: tools/try_seed.sh <patch.diff> <ID> [tier]   -- applies a seeded change to /repo, runs the check, reverts
+# usage: tools/try_seed.sh <patch.diff> <ID> [tier]
+# Runs the check of <ID> against a scratch worktree of /repo with the seeded change applied
+# (VERIF_REPO developer mode: /repo itself is not touched, no evidence is written), then removes
+# the worktree. Equivalent to: git -C /repo apply <patch>; ./check <ID> <tier>; git -C /repo checkout -- .
 set -u
-patch="$1"; id="$2"; tier="${3:-quick}"
-cd /repo || exit 2
-if ! git diff --quiet; then echo "repo not clean"; exit 2; fi
-git apply "$patch" || { echo "patch does not apply"; exit 2; }
-cd /verif && ./bin/verif check "$id" "$tier" > /tmp/try_seed.out 2>&1
+patch=$(readlink -f "$1"); id="$2"; tier="${3:-quick}"
+wt=/tmp/tryseed-$$
+out=/tmp/try_seed.$id.$$.out
+git -C /repo worktree add -q --detach "$wt" HEAD || exit 2
+cleanup() { git -C /repo worktree remove --force "$wt" >/dev/null 2>&1; rm -rf "$wt.verif-out"; }
+( cd "$wt" && git apply "$patch" ) || { echo "patch does not apply"; cleanup; exit 2; }
+cd /verif && VERIF_REPO="$wt" ./bin/verif check "$id" "$tier" > "$out" 2>&1
 code=$?
-git -C /repo checkout -- .
-echo "exit=$code"
-grep -c "^VIOLATION" /tmp/try_seed.out | sed 's/^/violations: /'
-grep "^VIOLATION" -A3 /tmp/try_seed.out | grep "label=" | sed 's/.*label=//' | sort | uniq -c | head -8
-grep "MACHINERY\|ENGINE-MISMATCH\|INCONCLUSIVE\|UNCONFIRMED" /tmp/try_seed.out | cut -c1-200 | head -5
+cleanup
+echo "exit=$code  (output: $out)"
+grep -c "^VIOLATION" "$out" | sed 's/^/violations: /'
+grep "^VIOLATION" -A3 "$out" | grep "label=" | sed 's/.*label=//' | sort | uniq -c | sort -rn | head -8
+grep "MACHINERY\|ENGINE-MISMATCH\|INCONCLUSIVE\|UNCONFIRMED" "$out" | cut -c1-200 | head -5
